@@ -73,6 +73,7 @@ type State struct {
 
 type callEntry struct {
 	frame  int
+	top    int // frame of the function under verification that inlined the caller
 	key    string
 	res    Value
 	parent *callEntry
@@ -81,7 +82,7 @@ type callEntry struct {
 func (st *State) callCount(frame int, key string) int {
 	n := 0
 	for c := st.calls; c != nil; c = c.parent {
-		if c.frame == frame && c.key == key {
+		if (c.frame == frame || c.top == frame) && c.key == key {
 			n++
 		}
 	}
@@ -92,7 +93,7 @@ func (st *State) callCount(frame int, key string) int {
 func (st *State) callResult(frame int, key string, n int) (Value, bool) {
 	var all []Value
 	for c := st.calls; c != nil; c = c.parent {
-		if c.frame == frame && c.key == key {
+		if (c.frame == frame || c.top == frame) && c.key == key {
 			all = append(all, c.res)
 		}
 	}
